@@ -165,7 +165,7 @@ fn try_input(bytes: &[u8], path: &str, acc: &mut WAcc, n_keys_cap: usize, bound:
   let mut keys = mentioned_keys(&layout);
   keys.truncate(n_keys_cap);
   let alphabet = with_foreign(keys, &layout, 1);
-  let opts = Opts { n: bound, max_states: 300_000, props: 0, stop_prop: 0, known: vec![], conformance_stride: 1 << 30, keep_samples: 0, max_depth: 48 };
+  let opts = Opts { n: bound, max_states: 300_000, props: 0, stop_prop: 0, known: vec![], conformance_stride: 1 << 30, keep_samples: 0, max_depth: 48, inner_threads: 1 };
   let res = explore(&layout, &alphabet, &opts);
   acc.explored += 1; acc.states += res.states as u64; acc.transitions += res.transitions;
   if let Some((hist, msg)) = res.panic {
